@@ -18,9 +18,15 @@ class XmlGenerator(TreeListener):
         self.xml = {}
 
     def exitEquation(self, tree: ast.Equation):
+        if isinstance(tree.left, ast.Symbol):
+            # Declaration equation "Real x = 1" of the flat model: the left-hand side is the
+            # symbol itself, refer to it by name (its component element stays in the class).
+            left = E("local", name=tree.left.name)
+        else:
+            left = self.xml[tree.left]
         self.xml[tree] = E(
             "equal",
-            self.xml[tree.left],
+            left,
             self.xml[tree.right],
         )
 
